@@ -219,6 +219,11 @@ def install():
     mod = sys.modules.get('yaml')
     if mod is not None and hasattr(mod, 'safe_load'):
         return
+    if mod is not None:
+        # `import yaml` already happened (gym_gridverse.gym imports the yaml factory): it resolved to the namespace package /repo/yaml;
+        # modules that bound that object must see safe_load too
+        mod.safe_load = safe_load
+        mod.__verif_shim__ = True
     m = types.ModuleType('yaml')
     m.safe_load = safe_load
     m.__verif_shim__ = True
